@@ -165,6 +165,7 @@ def g2_shapes():
     S.append(NL('toggle2', [('en', 'in'), ('o', 'out')],
                 [('f0', 'DFF', ['q0', 'q0n'], ['d0']), ('f1', 'DFF', ['q1', None], ['d1']), ('x0', 'XOR2', ['d0'], ['q0', 'en']),
                  ('a1', 'AND2', ['c0'], ['q0', 'en']), ('x1', 'XOR2', ['d1'], ['q1', 'c0']), ('o1', 'NOR2', ['o'], ['q0n', 'q1'])]))
+    S.append(NL('dff_no_pins', [('a', 'in'), ('o', 'out'), ('p', 'out')], [('f', 'DFF', ['q', 'qn'], []), ('g', 'dff', ['r', None], [None, 'a']), ('h', 'XOR2', ['o'], ['q', 'a']), ('k', 'NOR2', ['p'], ['qn', 'r'])]))
     S.append(NL('latch', [('d', 'in'), ('g', 'in'), ('q', 'out')], [('l', 'LATCH', ['q'], ['d', 'g'])]))
     S.append(NL('latch_mix', [('d', 'in'), ('g', 'in'), ('o', 'out')],
                 [('l', 'latch', ['ql'], ['x', 'g']), ('f', 'DFF', ['qf', 'qfn'], ['ql']), ('x1', 'XNOR2', ['x'], ['d', 'qfn']), ('o1', 'OAI21', ['o'], ['ql', 'qf', 'd'])]))
